@@ -324,6 +324,8 @@ class Ctx:
             return ":".join(sa)
         if k == "phi":
             return "phi(" + " | ".join(sa) + ")"
+        if k == "gphi":
+            return "gphi(" + " | ".join(f"{sa[i]} -> {sa[i + 1]}" for i in range(0, len(sa), 2)) + ")"
         if k == "iter":
             return f"each{list(head[1]) if head[1] else ''}({sa[0]})"
         if k == "new":
@@ -397,6 +399,7 @@ class Evaluator:
         self._nested = {}
         self._cur_at = None
         self.param_override = {}
+        self.exact = False
         self.alias_mode = False
         self._spec_mode = False
         self._keep_seq = False      # inside a subscript: tuple(x) / list(x) select different numpy indexing modes
@@ -496,11 +499,116 @@ class Evaluator:
                 return uniq[0]
             types = {self.ctx.type_of(u) for u in uniq}
             typ = types.pop() if len(types) == 1 else None
+            if self.exact:
+                return self._gated_phi(name, terms, at, typ)
             return self.ctx.mk(("phi",), uniq, typ)
         # closure variable of an enclosing function
         if self.parent is not None and (name in self.parent._local_names or name in self.parent._params):
             return self.parent._name(name, self.parent_at, None)
         return self._global(name)
+
+    def _condition_nodes(self):
+        """ids of the and/or/not nodes that make up the tests of if / while / conditional expressions / comprehension
+        filters / asserts of this function: there a Boolean operator is a connective, elsewhere it selects a value"""
+        if getattr(self, "_cond_ids", None) is None:
+            ids = set()
+
+            def mark(x):
+                if isinstance(x, ast.BoolOp):
+                    ids.add(id(x))
+                    for v_ in x.values:
+                        mark(v_)
+                elif isinstance(x, ast.UnaryOp) and isinstance(x.op, ast.Not):
+                    ids.add(id(x))
+                    mark(x.operand)
+            for n in ast.walk(self.func.node):
+                if isinstance(n, (ast.If, ast.While, ast.IfExp, ast.Assert)):
+                    mark(n.test)
+                elif isinstance(n, ast.comprehension):
+                    for i_ in n.ifs:
+                        mark(i_)
+            self._cond_ids = ids
+        return self._cond_ids
+
+    # ------------------------------------------------------------ exact mode: gated alternatives
+    def _stmt_reach_term(self, stmt):
+        """conjunction of every branch decision that all paths to `stmt` share (enclosing branches and survived guards)"""
+        key = ("reach", id(stmt))
+        if key in self._cache:
+            return self._cache[key]
+        parts = []
+        for test, pol, syn in self.cfg.must_literals(stmt):
+            owner = None
+            for n in self.cfg.nodes:
+                if n.kind == "test" and n.ast is test:
+                    owner = n
+                    break
+            t = self._t(test, owner, None)
+            parts.append(t if pol else self._not(t))
+        res = self._bool("and", parts) if parts else self.ctx.mk(("const", True))
+        self._cache[key] = res
+        return res
+
+    def _fwd_reach(self, a):
+        key = ("fwd", a)
+        if key in self._cache:
+            return self._cache[key]
+        seen = set()
+        st = [a]
+        while st:
+            x = st.pop()
+            for y in self.cfg.succ[x]:
+                if (x, y) in self.cfg.back_edges or y in seen:
+                    continue
+                seen.add(y)
+                st.append(y)
+        self._cache[key] = seen
+        return seen
+
+    def _gated_phi(self, name, terms, at, typ):
+        """gphi(g1, v1, g2, v2, ...): value v_i arrives when its definition was executed and no later definition on the way
+        to `at` was (the parameter itself: when no definition was executed).  Alternatives with equal values are merged;
+        the result does not depend on whether the code says `x = a; if c: x = b` or `if c: x = b else: x = a`."""
+        c = self.ctx
+        defs = [(d, t) for d, t in terms if d >= 0]
+        execs = {}
+        for d, t in defs:
+            n = self.cfg.nodes[d]
+            execs[d] = self._stmt_reach_term(n.stmt) if n.stmt is not None else c.mk(("gate-unknown", d), ())
+        alts = []
+        for d, t in terms:
+            if d < 0:
+                g = self._bool("and", [self._not(execs[m]) for m, _ in defs]) if defs else c.mk(("const", True))
+            else:
+                hd = c.head_of(t)
+                if hd and hd[0] == "carried":
+                    g = c.mk(("gate-carried", d), ())
+                else:
+                    killers = [m for m, _ in defs if m != d and m != at.id and m in self._fwd_reach(d) and at.id in self._fwd_reach(m)]
+                    g = self._bool("and", [execs[d]] + [self._not(execs[m]) for m in killers])
+            alts.append((g, t))
+        return self._mk_gphi(alts, typ)
+
+    def _mk_gphi(self, alts, typ=None):
+        c = self.ctx
+        merged = []
+        for g, t in alts:
+            hg = c.head_of(g)
+            if hg and hg[0] == "const" and hg[1] is False:
+                continue
+            for i, (g2, t2) in enumerate(merged):
+                if c.eq(t, t2):
+                    merged[i] = (self._bool("or", [g2, g]), t2)
+                    break
+            else:
+                merged.append((g, t))
+        if len(merged) == 1:
+            return merged[0][1]
+        merged.sort(key=lambda gt: (gt[1].key(), gt[0].key()))
+        flat = []
+        for g, t in merged:
+            flat += [g, t]
+        return c.mk(("gphi",), flat, typ)
 
     def _param_reaches(self, name, at, restrict):
         """is there a path entry->at along which parameter `name` is not rebound"""
@@ -544,7 +652,7 @@ class Evaluator:
         return self._sym(name)
 
     def _def_term(self, name, node, restrict):
-        key = ("def", name, node.id, restrict, self.alias_mode)
+        key = ("def", name, node.id, restrict, self.alias_mode, self.exact)
         if key in self._cache:
             return self._cache[key]
         if key in self._stack:
@@ -618,7 +726,13 @@ class Evaluator:
                     rhs = self._t(st.value, node, restrict)
                     res = self._binop(st.op, prev, rhs)
                 elif how == "def":
-                    res = self._sym(f"localfn:{payload.name}")
+                    # several nested definitions may share one name (bound under different conditions): the symbol says
+                    # which one - name, name#2, name#3 in source order (the convention of Repo.funcs)
+                    same = sorted((n.lineno, n.col_offset) for n in ast.walk(self.func.node)
+                                  if isinstance(n, (ast.FunctionDef, ast.AsyncFunctionDef)) and n is not self.func.node
+                                  and n.name == payload.name)
+                    k = same.index((payload.lineno, payload.col_offset)) + 1 if (payload.lineno, payload.col_offset) in same else 1
+                    res = self._sym(f"localfn:{payload.name}" + (f"#{k}" if k > 1 else ""))
                 elif how == "import":
                     res = self._sym(f"import:{name}")
                 elif how == "except":
@@ -711,7 +825,7 @@ class Evaluator:
         ek = ("name", e.id) if isinstance(e, ast.Name) else id(e)
         if not isinstance(e, ast.Name):
             self._pinned.append(e)      # keep the node alive as long as its id() is a cache key
-        k = (ek, at.id if at is not None else None, restrict, self.alias_mode, self._keep_seq,
+        k = (ek, at.id if at is not None else None, restrict, self.alias_mode, self._keep_seq, self.exact,
              tuple(sorted((n, id(v)) for n, v in self.bound.items())))
         if k in self._cache:
             return self._cache[k]
@@ -744,11 +858,16 @@ class Evaluator:
         if isinstance(e, ast.UnaryOp):
             x = T(e.operand)
             if isinstance(e.op, ast.USub):
+                if self.exact and not x.is_const():
+                    return c.mk(("fneg",), (x,))
                 return r_neg(x)
             if isinstance(e.op, ast.UAdd):
                 return c.mk(("call", "np.positive", 1, ()), (x,)) if self.alias_mode else x
             return self._not(x)
         if isinstance(e, ast.BoolOp):
+            if self.exact and id(e) not in self._condition_nodes():
+                # `a or b` as a VALUE is the first truthy operand: the order matters
+                return c.mk(("boolop", "and" if isinstance(e.op, ast.And) else "or"), [T(v) for v in e.values])
             return self._bool("and" if isinstance(e.op, ast.And) else "or", [T(v) for v in e.values])
         if isinstance(e, ast.Compare):
             parts = []
@@ -815,6 +934,8 @@ class Evaluator:
     def _ifexp(self, t, a, b):
         if self.ctx.eq(a, b):
             return a
+        if self.exact:
+            return self._mk_gphi([(t, a), (self._not(t), b)])
         return self.ctx.mk(("ifexp",), (t, a, b))
 
     def _comp(self, e, at, R):
@@ -892,6 +1013,10 @@ class Evaluator:
     # ------------------------------------------------------------ operators
     def _binop(self, op, a, b):
         c = self.ctx
+        if self.exact and not isinstance(op, (ast.BitAnd, ast.BitOr)) and not (a.is_const() and b.is_const()):
+            # floating-point arithmetic is neither associative nor distributive: in exact mode an operation is the
+            # operation that was written (x + y*f - x is not y*f)
+            return c.mk(("fbin", type(op).__name__), (a, b))
         if isinstance(op, ast.Add):
             # list/tuple/str concatenation stays symbolic but commutative-insensitive is wrong for
             # sequences; sequences are recognised by their heads
@@ -990,6 +1115,9 @@ class Evaluator:
     def _attr(self, base, attr):
         c = self.ctx
         h = c.head_of(base)
+        if h and h[0] == "gphi":
+            ar = c.args_of(base)
+            return self._mk_gphi([(ar[i], self._attr(ar[i + 1], attr)) for i in range(0, len(ar), 2)])
         if h and h[0] == "phi" and all(c.type_of(m) is not None for m in c.args_of(base)):
             # an attribute of "one of several repository objects" is "one of their attributes" (x = a or b; x.f == a.f or
             # b.f); arrays and other untyped values are left alone (x.reshape(*x.shape) must keep talking about one x)
@@ -1046,6 +1174,7 @@ class Evaluator:
         try:
             sub = Evaluator(self.repo, g, self.ctx, self_type=typ, expand=self.expand)
             sub.alias_mode = self.alias_mode
+            sub.exact = self.exact
             sub.bound = {"self": base}
             rets = [st for st in ast.walk(g.node) if isinstance(st, ast.Return)]
             if len(rets) != 1 or rets[0].value is None:
@@ -1164,6 +1293,7 @@ class Evaluator:
         sub = Evaluator(self.repo, fi, self.ctx, self_type=self.self_type if recv is not None else None, expand=self.expand,
                         parent=parent, parent_at=parent_at)
         sub.alias_mode = self.alias_mode
+        sub.exact = self.exact
         # defaults of the parameters that were not passed
         defaults = dict(zip([x.arg for x in a.args][len(a.args) - len(a.defaults):], a.defaults))
         defaults.update({x.arg: d for x, d in zip(a.kwonlyargs, a.kw_defaults) if d is not None})
@@ -1219,7 +1349,13 @@ class Evaluator:
                         uniq.append(x)
                 pos = [pos[0], c.mk(h2, uniq) if len(h2) == 1 else pos[1]]
         if not star and not kws:
-            if fname in ARITH_FUNCS and len(pos) in (1, 2):
+            if fname in ARITH_FUNCS and len(pos) in (1, 2) and self.exact:
+                op = ARITH_FUNCS[fname]
+                if op == "neg" and len(pos) == 1:
+                    return c.mk(("fneg",), (pos[0],))
+                if len(pos) == 2 and op in ("+", "-", "*", "/"):
+                    return c.mk(("fbin", {"+": "Add", "-": "Sub", "*": "Mult", "/": "Div"}[op]), (pos[0], pos[1]))
+            elif fname in ARITH_FUNCS and len(pos) in (1, 2):
                 op = ARITH_FUNCS[fname]
                 if op == "neg" and len(pos) == 1:
                     return r_neg(pos[0])
@@ -1236,7 +1372,7 @@ class Evaluator:
             if fname in TRANSPARENT_FUNCS and len(pos) == 1 and not self.alias_mode and \
                     not (self._keep_seq and fname in ("tuple", "list")):
                 return pos[0]
-            if fname == "np.power" and len(pos) == 2:
+            if fname == "np.power" and len(pos) == 2 and not self.exact:
                 k = pos[1].const()
                 if k is not None and k.denominator == 1 and abs(k) <= 8:
                     return r_pow(pos[0], int(k))
